@@ -1,9 +1,10 @@
 (* C06 — Change order is a function of the change set; incremental equals rebuilt.
    Only property theorems (closed by [exact]), non-vacuity examples and Print Assumptions.
-   Model: Lib/Dag.v, Model/Dfs.v, Model/Tree.v; proofs: Proofs/DfsBase.v, Proofs/TreeInc.v. *)
+   Model: Lib/Dag.v, Model/Dfs.v, Model/Tree.v; proofs: Proofs/DfsBase.v, Proofs/TreeInc.v, Proofs/DfsTopo.v, Proofs/TreeTopo.v, Proofs/DfsStable.v,
+   Proofs/TreeAppend.v. *)
 From Coq Require Import List NArith Bool Arith Permutation.
 Import ListNotations.
-From AnySync Require Import Lib.Dag Model.Dfs Model.Tree Proofs.DfsBase Proofs.TreeInc.
+From AnySync Require Import Lib.Dag Model.Dfs Model.Tree Proofs.DfsBase Proofs.TreeInc Proofs.DfsTopo Proofs.TreeTopo Proofs.DfsStable Proofs.TreeAppend.
 Open Scope N_scope.
 
 (* The canonical order (reverse post-order of the topSort DFS over id-sorted Next lists) is defined for every
@@ -43,11 +44,100 @@ Theorem c06_same_set_same_order : forall ops1 ops2,
 Proof. exact same_set_same_order. Qed.
 Print Assumptions c06_same_set_same_order.
 
-(* PARTIAL.  The full statement "forall G hists, spec_C06 G (model outputs along hists) = true" additionally needs,
-   about [order]:  (1) topological (every change after its previous changes in the view),
-   (2) old-order stability under growth / views are restrictions of the full order (reduced, rebuilt at a
-   snapshot, reopened),  (3) Append => the old sequence is a prefix of the new one,  (4) heads = childless members.
-   (1)-(4) are NOT proved here; they are part of the executable predicate spec_C06, which bin/check evaluates on the
+(* Topological.  On an ACYCLIC change set — there is a rank that every change exceeds over each of its previous ids
+   ("created after its previous changes"; [acyclic_by], hypothesis visible here, satisfiable: c06_nonvacuous_acyclic,
+   and needed: c06_topological_needs_acyclic) — the canonical order has no repeats and every presented change has
+   all the changes of the view that cite it LATER in the sequence.  Proved over the explicit stack machine
+   (frames of pending Next entries under the grey path; Proofs/DfsTopo.v). *)
+Theorem c06_topological : forall S root rk,
+  acyclic_by rk (view S root) ->
+  NoDup (order S root) /\
+  forall l1 p l2, order S root = l1 ++ p :: l2 ->
+    forall c, In c (view S root) -> In p (cprev c) -> In (cid c) l2.
+Proof. exact order_topological. Qed.
+Print Assumptions c06_topological.
+
+(* the same in the property's words: a change comes after every one of its previous changes that is presented *)
+Theorem c06_parents_first : forall S root rk,
+  acyclic_by rk (view S root) ->
+  forall c p, In c (view S root) -> In p (cprev c) -> In p (order S root) ->
+  exists l1 l2 l3, order S root = l1 ++ p :: l2 ++ cid c :: l3 /\ ~ In (cid c) l1 /\ ~ In p (l2 ++ cid c :: l3).
+Proof. exact order_parents_first. Qed.
+Print Assumptions c06_parents_first.
+
+(* ... and for the sequence the incrementally maintained tree presents, after any history *)
+Theorem c06_incremental_topological : forall ops rk,
+  t_att (run_ops ops) <> [] ->
+  acyclic_by rk (view (t_att (run_ops ops)) (t_root (run_ops ops))) ->
+  NoDup (iter_ids (run_ops ops)) /\
+  forall l1 p l2, iter_ids (run_ops ops) = l1 ++ p :: l2 ->
+    forall c, In c (view (t_att (run_ops ops)) (t_root (run_ops ops))) -> In p (cprev c) -> In (cid c) l2.
+Proof. exact incremental_topological. Qed.
+Print Assumptions c06_incremental_topological.
+
+(* Growth never reorders.  Let a replica that holds S learn the changes Nw (ids not yet held, and — S being closed
+   under previous ids — not cited by anything in S; the root is not among them), in any listing S' of the union.
+   Leaving the new changes out of the new order gives EXACTLY the old order: old changes keep their relative order.
+   (Stuttering simulation between the two stack machines, Proofs/DfsStable.v.) *)
+Theorem c06_old_order_stable : forall S Nw S' root,
+  Permutation S' (S ++ Nw) ->
+  (forall c, In c S -> ~ In (cid c) (ids Nw)) ->
+  (forall c p, In c (view S root) -> In p (cprev c) -> ~ In p (ids Nw)) ->
+  ~ In root (ids Nw) ->
+  filter (not_new Nw) (order S' root) = order S root.
+Proof. exact order_stable_perm. Qed.
+Print Assumptions c06_old_order_stable.
+
+(* ... and for the incrementally maintained tree: whatever batch Tree.Add is given on a non-empty tree reached by any
+   history, the attached list grows at the front by some Nw and the sequence presented afterwards, with Nw left out,
+   is the sequence presented before. *)
+Theorem c06_add_keeps_old_order : forall ops cs,
+  t_att (run_ops ops) <> [] ->
+  exists Nw, t_att (fst (fst (tree_add (run_ops ops) cs))) = Nw ++ t_att (run_ops ops) /\
+    filter (not_new Nw) (iter_ids (fst (fst (tree_add (run_ops ops) cs)))) = iter_ids (run_ops ops).
+Proof. exact tree_add_old_order_stable. Qed.
+Print Assumptions c06_add_keeps_old_order.
+
+(* Append => prefix, at the level of the canonical order.  If in addition the union is acyclic and every new change
+   that is presented is a Next-descendant of the LAST change of the old order (this is lastIteratedHeadId, and
+   reachability from it is what Tree.Add tests before it answers Append), then the old order is a prefix of the new
+   order and everything after it is new. *)
+Theorem c06_append_prefix_order : forall S Nw root,
+  (forall c, In c S -> ~ In (cid c) (ids Nw)) ->
+  (forall c p, In c (view S root) -> In p (cprev c) -> ~ In p (ids Nw)) ->
+  ~ In root (ids Nw) ->
+  forall rk, acyclic_by rk (view (S ++ Nw) root) ->
+  forall A0 last0, order S root = A0 ++ [last0] ->
+  (forall y, In y (order (S ++ Nw) root) -> In y (ids Nw) -> reach (next_of (view (S ++ Nw) root)) last0 y) ->
+  exists B, order (S ++ Nw) root = order S root ++ B /\ forall b, In b B -> In b (ids Nw).
+Proof. exact order_append_prefix. Qed.
+Print Assumptions c06_append_prefix_order.
+
+(* Append => prefix, for the model of Tree.Add itself: on every tree reached by Tree.Add / Tree.AddFast calls from the
+   empty tree (arbitrary batches), if Tree.Add answers Append — its own decision: every attached batch member's
+   object was really added and is reachable through Next from the old lastIteratedHeadId — and the resulting attached
+   set is acyclic, then the sequence presented before is a prefix of the sequence presented after.
+   (Second invariant of the tree: attached ids pairwise different, previous ids of attached non-root changes attached,
+   nothing unattached between calls, lastIteratedHeadId = last childless change presented; reach_loop sound;
+   Proofs/TreeAppend.v.) *)
+Theorem c06_append_prefix : forall ops cs t2 added rk,
+  tree_add (run_ops ops) cs = (t2, Append, added) ->
+  acyclic_by rk (view (t_att t2) (t_root t2)) ->
+  exists B, iter_ids t2 = iter_ids (run_ops ops) ++ B.
+Proof. exact tree_add_append_prefix. Qed.
+Print Assumptions c06_append_prefix.
+
+(* PARTIAL.  The full statement "forall G hists, spec_C06 G (model outputs along hists) = true" additionally needs:
+   (1) topological — PROVED above (c06_topological / c06_incremental_topological, for acyclic sets; spec_C06's executable
+   [topo_b] additionally looks every id up in G, that translation is not made),
+   (2) old-order stability under growth — PROVED above for growth by new changes (c06_old_order_stable, c06_add_keeps_old_order);
+   NOT proved: the views of a reduced / rebuilt-at-a-snapshot / reopened object tree are restrictions of the STORED
+   order (the stored order is realised by lexid order ids, which are not modelled),
+   (3) Append => the old sequence is a prefix of the new one — PROVED above for Tree.Add (c06_append_prefix); not proved for
+   the object-tree layer (AddRawChanges: reduce, "last head gone => Rebuild", rebuild from storage),
+   (4) heads = childless members — not proved for the tree's headIds (the invariant used for (3) gives lastIteratedHeadId =
+   last childless change; the analogous statement for the response iterator's heads is c09_heads_fold_is_childless).
+   The unproved parts are conjuncts of the executable predicate spec_C06, which bin/check evaluates on the
    implementation's observed sequences in every case (and model outputs = observed outputs in every case).
    What is proved of spec_C06's "function of the set" component is c06_same_set_same_order above. *)
 Theorem c06_model_meets_spec_partial : forall ops1 ops2,
@@ -82,6 +172,62 @@ Proof.
   split; [|split; [vm_compute; reflexivity | vm_compute; discriminate]].
   vm_compute. apply perm_skip. apply perm_skip.
   apply Permutation_cons_app with (l1 := [_; _]) (l2 := [_]). cbn [app]. apply perm_swap.
+Qed.
+
+(* the acyclicity hypothesis of c06_topological holds on the example (rank = generation) ... *)
+Definition g_rk (i : N) : nat :=
+  match i with 5 => 0%nat | 9 => 1%nat | 3 => 1%nat | 7 => 1%nat | 4 => 2%nat | 8 => 3%nat | _ => 0%nat end.
+
+Example c06_nonvacuous_acyclic : acyclic_by g_rk (view [g_t; g_m; g_s; g_b; g_a; g_root] 5).
+Proof.
+  intros c p Hc Hp. vm_compute in Hc.
+  repeat (destruct Hc as [Hc|Hc];
+          [subst c; vm_compute in Hp; repeat (destruct Hp as [Hp|Hp]; [subst p; vm_compute; repeat constructor|]); destruct Hp|]).
+  destruct Hc.
+Qed.
+
+(* ... and cannot be dropped: with a cycle 1 -> 2 -> 3 -> 2 the machine (like topSort) presents 2 before 3 although
+   3 is a previous change of 2 *)
+Example c06_topological_needs_acyclic :
+  order [mkChange 1 [] 0 true; mkChange 2 [1; 3] 1 false; mkChange 3 [2] 1 false] 1 = [1; 2; 3].
+Proof. vm_compute. reflexivity. Qed.
+
+(* growth on the example: a replica holding root, a, b, s learns the merges m and t; both descend from a = the last
+   change of its old order, so the old order [5;3;7;9] is a prefix of the new one *)
+Example c06_nonvacuous_growth :
+  (forall c, In c [g_root; g_a; g_b; g_s] -> ~ In (cid c) (ids [g_m; g_t])) /\
+  (forall c p, In c (view [g_root; g_a; g_b; g_s] 5) -> In p (cprev c) -> ~ In p (ids [g_m; g_t])) /\
+  ~ In 5 (ids [g_m; g_t]) /\
+  order [g_root; g_a; g_b; g_s] 5 = [5; 3; 7] ++ [9] /\
+  order ([g_root; g_a; g_b; g_s] ++ [g_m; g_t]) 5 = [5; 3; 7; 9; 4; 8] /\
+  filter (not_new [g_m; g_t]) [5; 3; 7; 9; 4; 8] = [5; 3; 7; 9] /\
+  reach (next_of (view ([g_root; g_a; g_b; g_s] ++ [g_m; g_t]) 5)) 9 4 /\
+  reach (next_of (view ([g_root; g_a; g_b; g_s] ++ [g_m; g_t]) 5)) 9 8.
+Proof.
+  repeat split; try (vm_compute; reflexivity).
+  - intros c Hc Hin. vm_compute in Hc.
+    repeat (destruct Hc as [Hc|Hc]; [subst c; vm_compute in Hin; intuition discriminate|]). destruct Hc.
+  - intros c p Hc Hp Hin. vm_compute in Hc.
+    repeat (destruct Hc as [Hc|Hc]; [subst c; vm_compute in Hp; vm_compute in Hin; intuition (subst; discriminate)|]). destruct Hc.
+  - vm_compute. intuition discriminate.
+  - apply reach_one. vm_compute. auto.
+  - apply (reach_step _ 9 4 8); [vm_compute; auto | apply reach_one; vm_compute; auto].
+Qed.
+
+(* c06_append_prefix on the example: the tree root, a answers Append to a child of a, its attached set is acyclic, and the
+   old sequence [5;9] is a prefix of the new one *)
+Example c06_nonvacuous_append :
+  snd (fst (tree_add (run_ops [OpAdd [g_root; g_a]]) [mkChange 2 [9] 5 false])) = Append /\
+  iter_ids (run_ops [OpAdd [g_root; g_a]]) = [5; 9] /\
+  iter_ids (fst (fst (tree_add (run_ops [OpAdd [g_root; g_a]]) [mkChange 2 [9] 5 false]))) = [5; 9; 2] /\
+  acyclic_by (fun i => match i with 5 => 0%nat | 9 => 1%nat | _ => 2%nat end)
+    (view (t_att (fst (fst (tree_add (run_ops [OpAdd [g_root; g_a]]) [mkChange 2 [9] 5 false])))) 5).
+Proof.
+  repeat split; try (vm_compute; reflexivity).
+  intros c p Hc Hp. vm_compute in Hc.
+  repeat (destruct Hc as [Hc|Hc];
+          [subst c; vm_compute in Hp; repeat (destruct Hp as [Hp|Hp]; [subst p; vm_compute; repeat constructor|]); destruct Hp|]).
+  destruct Hc.
 Qed.
 
 (* the mode decision on the example: extending at the last iterated head is Append, a concurrent branch is Rebuild *)
